@@ -512,7 +512,7 @@ Section LoaderSim.
   Lemma load_fields_cons_eq {C'} (sk : C' -> str -> str -> outcome C') key t vs rest path
       (v : fsval (FCons key t vs rest)) ms c :
     load_fields a pl sk (FCons key t vs rest) path v ms c =
-    ('(v1, ld, c1) <- match member (DKStr key) ms with
+    ('(v1, ld, c1) <- match member (field_key t key) ms with
                      | None => Ok (fst v, false, c)
                      | Some d => load_fty a pl sk t (path ++ slash ++ key)%list (fst v) d c
                      end ;;
@@ -568,23 +568,23 @@ Section LoaderSim.
       intros key t IHt vs rest IHr path [vh vt] ms.
       eapply sim_ext; [intros l; symmetry; apply (load_fields_cons_eq rec_sink) | intros c; symmetry; apply (load_fields_cons_eq sink) |].
       cbn [fst snd].
-      set (F1 := match member (DKStr key) ms with
+      set (F1 := match member (field_key t key) ms with
                  | None => fun l : list failure => Ok (vh, false, l)
                  | Some d => load_fty a pl rec_sink t (path ++ slash ++ key)%list vh d
                  end).
-      set (G1 := match member (DKStr key) ms with
+      set (G1 := match member (field_key t key) ms with
                  | None => fun c : C => Ok (vh, false, c)
                  | Some d => load_fty a pl sink t (path ++ slash ++ key)%list vh d
                  end).
       assert (S1 : sim sink F1 G1).
-      { subst F1 G1. destruct (member (DKStr key) ms) as [d|]; [apply IHt | apply (sim_ret sink (vh, false))]. }
+      { subst F1 G1. destruct (member (field_key t key) ms) as [d|]; [apply IHt | apply (sim_ret sink (vh, false))]. }
       eapply sim_ext; [| |apply (sim_bind sink F1 G1
            (fun vl l => '(_, l2) <- (l2 <- visit_args rec_sink vs (view_of t (fst vl)) (snd vl) (path ++ slash ++ key)%list l ;; Ok (tt, l2)) ;;
                         '(r, l3) <- load_fields a pl rec_sink rest path vt ms l2 ;; Ok ((fst vl, r), l3))
            (fun vl c => '(_, c2) <- (c2 <- visit_args sink vs (view_of t (fst vl)) (snd vl) (path ++ slash ++ key)%list c ;; Ok (tt, c2)) ;;
                         '(r, c3) <- load_fields a pl sink rest path vt ms c2 ;; Ok ((fst vl, r), c3)))].
-      + intros l. subst F1. destruct (member (DKStr key) ms) as [d|]; cbn [bind fst snd]; ext_steps_r.
-      + intros c. subst G1. destruct (member (DKStr key) ms) as [d|]; cbn [bind fst snd]; ext_steps_r.
+      + intros l. subst F1. destruct (member (field_key t key) ms) as [d|]; cbn [bind fst snd]; ext_steps_r.
+      + intros c. subst G1. destruct (member (field_key t key) ms) as [d|]; cbn [bind fst snd]; ext_steps_r.
       + exact S1.
       + intros vl.
         apply (sim_bind sink _ _
@@ -767,7 +767,7 @@ Qed.
 (* ---------------- the failures a class records, field by field ---------------- *)
 Theorem recorded_field a pl key t vs rest path (v : fsval (FCons key t vs rest)) ms l0 :
   load_fields a pl rec_sink (FCons key t vs rest) path v ms l0 =
-  ('(v1, ld, l1) <- match member (DKStr key) ms with
+  ('(v1, ld, l1) <- match member (field_key t key) ms with
                    | None => Ok (fst v, false, l0)
                    | Some d => load_fty a pl rec_sink t (path ++ slash ++ key)%list (fst v) d l0
                    end ;;
@@ -776,7 +776,7 @@ Theorem recorded_field a pl key t vs rest path (v : fsval (FCons key t vs rest))
    Ok ((v1, r), l3)).
 Proof.
   rewrite (load_fields_cons_eq a pl rec_sink).
-  destruct (match member (DKStr key) ms with
+  destruct (match member (field_key t key) ms with
             | None => Ok (fst v, false, l0)
             | Some d => load_fty a pl rec_sink t (path ++ slash ++ key)%list (fst v) d l0
             end) as [[[v1 ld] l1]|e]; cbn [bind]; [|reflexivity].
